@@ -276,6 +276,11 @@ def translate_one(repo, rel, fn, callees, consts):
             gc.fn_body(gc.load(repo, crel), cn, crel, unique=True)        # the callee exists, once, where the theorem's environment says
             if crel != rel and len(re.findall(r"\bfn\s+" + cn + r"\b", gc.mask_literals(gc.load(repo, rel)))) != 0:
                 raise Unsupported("%s is also defined in %s" % (cn, rel))
+            if crel != rel:
+                # ... and the name is brought into this file by exactly one `use`, from that file's module (no alias, no glob that could supply it)
+                import gen_api
+                try: gen_api.check_provenance(gc.load(repo, rel), rel, {cn})
+                except gen_api.Unsupported as ex: raise Unsupported(str(ex))
         f = Fn(repo, rel, fn, callees, consts)
         res = f.translate()
         return "⟨[%s], %s, none⟩" % (", ".join(f.stmts), res)
